@@ -11,7 +11,7 @@ import gc
 from sim import devices
 from sim.canon import Log, dec_table, canon_rows, canon_row, canon_cell
 from sim.core import outcome, ddmin_lists
-from sim.devices import SimTable
+from sim.devices import SimTable, SimSourceError
 from sim.gen import gen_table, FIELDS
 from sim.loader import load_petl
 from sim.sched import Sched, Violation, gen_schedule
@@ -95,17 +95,28 @@ def gen_case(rng, tier, g):
         cache = rng.random() < 0.6
         steps, shape = gen_schedule(rng, nviews=1, maxsteps=30,
                                     nrows_hint=max(len(left), 3))
+        if rng.random() < 0.25:
+            # one pass of one input fails part-way (e.g. while the build
+            # side is being loaded); later passes must be complete
+            side = rng.choice(['left', 'right'])
+            n = len(left if side == 'left' else right) - 1
+            steps.insert(rng.randint(0, max(0, len(steps) // 2)),
+                         ['ARM', side, rng.choice([1, 2, max(1, n // 2), n,
+                                                   n + 1]), 1])
         return {'prop': PROP, 'machine': 'join', 'kind': kind, 'left': left,
                 'right': right, 'keyspec': keyspec, 'args': args,
                 'cache': cache, 'steps': steps, 'shape': shape}
     fn = LOOKUPS[g % len(LOOKUPS)]
-    nf = rng.randint(2, 4)
+    nf = 4
     table = gen_table(rng, maxrows, nfields=nf, ragged=False,
                       profile=rng.choice(['default', 'mixedkeys', 'nonone']))
     key = rng.choice(['a', 'a', ['a', 'b'], 'b', 0])
     value = None
     if fn in ('lookup', 'lookupone'):
-        value = rng.choice([None, None, 'b', ['b', 'a'], 1])
+        # column d holds None and falsy values: "no value yet" must not be
+        # confused with a stored None
+        value = rng.choice([None, None, 'b', 'd', 'd', ['b', 'a'],
+                            ['d', 'c'], 1])
     return {'prop': PROP, 'machine': 'lookup', 'fn': fn, 'table': table,
             'table2': gen_table(rng, 4, nfields=nf, ragged=False),
             'key': key, 'value': value, 'strict': rng.random() < 0.5,
@@ -236,9 +247,22 @@ def _run_join(e, case, log, probes):
     ls = SimTable([list(r) for r in left], mode='alias', name='left')
     rs = SimTable([list(r) for r in right], mode='alias', name='right')
     view = getattr(e, kind)(ls, rs, **hkw)
-    sch = Sched([view], [want_c], log=log)
+    sch = Sched([view], [want_c], log=log,
+                expect_fault=lambda t, ex: isinstance(ex, SimSourceError))
     try:
-        sch.run(case['steps'])
+        for op in case['steps']:
+            if op[0] == 'ARM':
+                (ls if op[1] == 'left' else rs).arm(op[2], passes=op[3])
+                log.add('step', op)
+                probes['source-failure-armed'] = 1
+                continue
+            sch.step(op)
+        if sch.probes.get('iter-failed-by-injection'):
+            # the build side is loaded inside iter(): the failure surfaces
+            # from ITER itself
+            probes['failure-during-build'] = 1
+        ls.disarm()
+        rs.disarm()
         build = rs if kind != 'hashrightjoin' else ls
         before = build.pulls('data')
         sch.fresh(0)
